@@ -91,6 +91,7 @@ def build(t, v0, pname, hist, salt=0):
     s.pl = o.pl
     s.rooms = {p: string_room(lv) for p, lt, lv in xt.leaf_paths(t, v0) if lt[0] == "Str"}
     s.view = None
+    s.foreign = {}
     # a view that exists from the start; both long-lived handles are read in full after construction and after every
     # replayed event, so that whatever a handle remembers about earlier reads is part of every explored state
     s.v0 = None
@@ -111,6 +112,8 @@ def touch(s):
             continue
         try:
             xt.read(s.t, h, deep=False)
+            if s.t[0] == "A" and s.t[1][0] == "S":
+                h.to_nplike()  # (the typed window of a long-lived handle has been asked for before every event)
         except Exception:
             pass  # judged where it happens
 
@@ -150,6 +153,16 @@ def apply_event(s, ev):
             arg = xt.construct(ft, xt.to_py(ft, val), _buffer=s.h._buffer)
         elif form == "member-obj":
             arg = xt.construct(ft[1][val[0]], xt.to_py(ft[1][val[0]], val[1]), _buffer=s.h._buffer)
+        elif form == "member-foreign":
+            # ONE object per member type, living in another buffer and kept for the whole history: it is modified in place
+            # to the value wanted now and bound again through the same python handle (the holder copies it every time)
+            mt = ft[1][val[0]]
+            fo = s.foreign.get(mt)
+            if fo is None:
+                fo = s.foreign[mt] = xt.construct(mt, xt.to_py(mt, val[1]), _buffer=place.traced("np", 0))
+            else:
+                fo._update(xt.to_py(mt, val[1]))
+            arg = fo
         if form.endswith("-view") and ft[0] != "U":
             arg = xt.build(ft)._from_buffer(arg._buffer, arg._offset)  # a view, not the constructor's handle
         do_set(s, via, path, arg)
@@ -314,6 +327,14 @@ def events(s, opts, depth_now):
                     lastv = xt.gen(rt[1][k], "alt", xt.Ctr(300 + n))
                     if xt.py_expressible(rt[1][k], lastv):
                         evs.append(("setc", via, path, "member-obj", (k, lastv)))
+                if rt[0] == "U" and via == vias[0] and opts.get("foreign", True):
+                    # the first member given as the ONE foreign object of its type (see apply_event), with another value of
+                    # the same layout at every depth
+                    m0 = rt[1][0]
+                    if not xt.has_refs(m0) and m0[0] in ("St", "A"):
+                        fv = same_size_alt(m0, xt.gen(m0, "alt", xt.Ctr(400)), n)
+                        if xt.py_expressible(m0, fv):
+                            evs.append(("setc", via, path, "member-foreign", (0, fv)))
     if opts.get("grow", True) and s.pl.buf is not None:
         evs.append(("grow",))
     return evs
